@@ -484,6 +484,41 @@ func gen(o hreg.Opts, w *bufio.Writer) error {
 			}
 			in.vals = append(in.vals, v)
 		}
+		// keep the balance-weighted sampling loops affordable for the Lean side (which evaluates compute_shuffled_index
+		// for every candidate): expected candidates = members / acceptance probability; when the estimate is too high
+		// first shrink the sync committee, then lift the lowest balances of the sampled epoch's active validators
+		accept := func(e uint64) float64 {
+			sum, cnt := 0.0, 0
+			for _, v := range in.vals {
+				if v.act <= e && e < v.exit {
+					q := float64(v.eff)*255/float64(in.meb) + 1
+					if q > 256 {
+						q = 256
+					}
+					sum += q / 256
+					cnt++
+				}
+			}
+			if cnt == 0 {
+				return 1
+			}
+			return sum / float64(cnt)
+		}
+		cost := func() float64 {
+			per := float64(2*in.src+1) * 2
+			return float64(in.scs)/accept(epoch+1)*per + float64(in.spe)/accept(epoch)*per
+		}
+		if cost() > 200000 {
+			in.scs = 8
+		}
+		for lift := in.meb / 4; cost() > 200000 && lift <= in.meb; lift *= 2 {
+			for i := range in.vals {
+				if in.vals[i].eff < lift {
+					in.vals[i].eff = lift
+				}
+			}
+			st.Add("balances", "lifted (sampling cost)")
+		}
 		nAct := 0
 		for _, v := range in.vals {
 			if v.act <= epoch && epoch < v.exit {
